@@ -99,6 +99,13 @@ def gen_defect(rng, data):
             # newline
             return ({'kind': 'empty_content', 'section': i}, i, kind)
 
+        cr = unit('\r', eff)
+
+        if nlb == cr + unit('\n', eff) and rng.chance(0.3):
+            # a CRLF text that goes on with a lone CR after its last line
+            return ({'kind': 'append_fragment', 'section': i,
+                     'hex': cr.hex()}, i, kind)
+
         if len(nlb) > 1 and rng.chance(0.4):
             # only a fragment of the final newline is there (its last 1 ..
             # len-1 bytes are missing, the length says so)
